@@ -63,7 +63,7 @@ func HarnessC34Run() {
 	// reference: reach[i][j] = path of length >= 1; execution order is the DFS from 0 that
 	// stops at the first failure, so only two facts are asserted from the reference:
 	// "no cycle and no panic reachable => plain success" and the error class otherwise.
-	var reach [4][4]bool
+	var reach [5][5]bool
 	for i := 0; i < g.n; i++ {
 		for j := 0; j < g.n; j++ {
 			reach[i][j] = g.dep[i][j]
@@ -110,7 +110,7 @@ func HarnessC34Run() {
 			zz.Assert(ok && s == "query panicked", "C34/panic-error-carries-the-value")
 		}
 		// not cached: the panicking query runs again on the next run
-		var before [4]int = g.runs
+		var before [5]int = g.runs
 		// Recorded finding C34/panic-cached-in-caller: the panicking query is not the root; its
 		// (transitive) caller completed with the cancellation error as its Fatal value and that
 		// failure is memoised, so the next run neither re-executes the panicking query nor fails
